@@ -77,7 +77,7 @@ def h_single(ctx):
     form = ctx.choose("form", FORMS)
     kind = pick_key_kind(alg, kind0, enc)
     zipv = ctx.deviate("zip", [None, "DEF"])
-    aad = ctx.deviate("aad", [None, b"aad!"]) if form != "compact" else None
+    aad = ctx.deviate("aad", [None, b"aad!", b""]) if form != "compact" else None
     apuv = ctx.deviate("apu/apv", [None, ("QWxpY2U", "Qm9i"), ("", "Qm9i")]) if alg.startswith("ECDH") else None
     placement = ctx.deviate("placement", ["protected", "alg-unprotected", "alg-recipient", "extras-everywhere"]) if form != "compact" else "protected"
     pname, plaintext = ctx.deviate("plaintext", plaintexts())
@@ -351,6 +351,13 @@ def h_again(ctx):
     return Outcome(f"again:{fam}:{'ok' if not vs else 'bad'}", vs, nontrivial=(alg, kind, enc, tuple(steps)))
 
 
+def h_decrypt_sequences(ctx):
+    """Round trips that follow one another in a process: a decrypted object edited by its caller, or an earlier token that was refused,
+    leaves the next decryption alone (the sequences of C02, judged here for the round-trip clause)."""
+    from . import c02
+    return c02.h_sequences(ctx)
+
+
 # ------------------------------------------------------------------ E3: two encrypt-then-decrypt round trips at the same time
 T_OPS = [("A128KW", "oct16", 0, "A128GCM", "compact", None), ("A128KW", "oct16", 1, "A128CBC-HS256", "flattened", "DEF"), ("dir", "oct16", 0, "A128GCM", "compact", "DEF"),
          ("A128GCMKW", "oct16", 0, "A128GCM", "general", None), ("PBES2-HS256+A128KW", "oct20", 0, "A128GCM", "compact", None),
@@ -413,5 +420,6 @@ PARTS = [
     Part("multi-recipient", h_multi, bound={"quick": 1, "thorough": 2}, split_depth=2, budget={"quick": 1200, "thorough": 1800}),
     _pf,
     Part("def-up-to-the-limit", h_def_limit, split_depth=3),
+    Part("decrypt-then-the-caller-edits-then-decrypt", h_decrypt_sequences, split_depth=3),
     Part("headers-and-objects-used-again", h_again, bound={"quick": 0, "thorough": 1}, split_depth=2),
 ]
